@@ -97,6 +97,9 @@ func report(eng *Engine, units []*Unit, start time.Time, workdir string, timeout
 			continue
 		}
 		funcs = append(funcs, u.Name)
+		for _, t := range u.Trusted {
+			assumed = append(assumed, fmt.Sprintf("%s: postcondition [%s] is assumed, not proved", u.Name, t))
+		}
 		if len(u.Obligs) == 0 {
 			fmt.Printf("VACUOUS %s: zero obligations\n", u.Name)
 			broken = true
